@@ -193,7 +193,7 @@ def program(rng, size='small', big_gap=False, aligns=True, data=True, consts=Tru
     return '\n'.join(out) + '\n', meta
 
 
-NSCEN = 21
+NSCEN = 22
 
 
 def scenarios(rng, n):
@@ -374,6 +374,14 @@ def scenarios(rng, n):
             kind, rng_max, al = [('beq x1, x2, L', 4094, 4096), ('j L', 1048574, 1 << 20), ('bnez x1, L', 4094, 4096)][j % 3]
             k = rng.choice([2, 3])
             src = 'add x8, x8, x9\n' * k + kind + '\nalign {}\n'.format(al) + 'dw 0\n' * (1 if k == 2 else 2) + 'L:\n'
+            add(src)
+        elif t == 21:
+            # known finding K2: an ABSOLUTE label value inside a non-transfer immediate at the edge of the operand range; the label
+            # moves down with -c, the immediate leaves its range (value decreasing or increasing in the label)
+            k = rng.choice([1, 2, 3])
+            form = [('addi x1, x0, {} - L', 2047 + 4 * k), ('addi x1, x0, L - {}', 2048 + 2 * k + 2), ('db {} - L', 127 + 4 * k),
+                    ('addi x1, x0, %position(L, -{})', 2048 + 2 * k + 2)][j % 4]
+            src = 'add x8, x8, x9\n' * k + 'L:\n' + form[0].format(form[1]) + '\n'
             add(src)
         else:
             src = 'start:\nauipc x5, %hi(%offset(start))\njalr x0, x5, %lo(%offset(start))\nlui x6, %hi(start)\nlw x7, x6, %lo(start)\n'
